@@ -8,13 +8,15 @@
     [.. < 2 ^ w] says that the result is not longer than [usize::MAX] bytes (otherwise the
     length pre-computation overflows: a panic or a wrap depending on the profile).
     [as_str_m r] is [Done r] when [r] is valid UTF-8 and the macro's "invalid string" panic
-    otherwise; [C20_concat_utf8] / [C20_join_utf8] show the panic cannot happen for str pieces.
+    otherwise; [C20_concat_total] / [C20_join_total] / [C20_from_iter_total] show that the panic
+    cannot happen: every [&str] is valid UTF-8 and every [char] is a scalar value.
 
-    NOT YET PROVED: that [utf8_ok (encode_m c) = true] for every scalar value [c] (so the
-    re-validation panic is excluded here only for [&str] pieces and [&str] separators; for
-    char pieces it is property C07/C01's statement about [encode_utf8]). *)
+    NOT YET PROVED: nothing of the plan of DESIGN section 4 is missing.  Outside the plan and
+    not proved here: that the iterator-DSL front end of [string::from_iter!] yields the items
+    of the source in order (property C10/C11's subject; [items] is taken as given), and the
+    behaviour when the total length does not fit [usize] (hypothesis [.. < 2 ^ w]). *)
 From KV Require Import Base.Prelude Model.Utf8 Model.Utf8Check Model.Concat Model.CStr
-  Spec.Concat Proofs.ConcatProofs Proofs.CStrProofs.
+  Spec.Concat Proofs.ConcatProofs Proofs.Utf8CheckProofs Proofs.CStrProofs.
 
 (* ------------------------------------------------------------------ two-pass agreement *)
 
@@ -99,16 +101,27 @@ Theorem C20_join_utf8 : forall sep ss,
   utf8_ok (intercalate sep ss) = true.
 Proof. exact utf8_ok_intercalate. Qed.
 
-(** hence, for str pieces, the macros return exactly std's string *)
-Theorem C20_concat_strs_total : forall w ss,
-  Forall (fun s => utf8_ok s = true) ss -> total_len ss < 2 ^ w ->
-  str_concat_m w false (AStr ss) = Done (flat ss).
-Proof. exact str_concat_strs_total. Qed.
-Theorem C20_join_strs_total : forall w sep ss,
-  utf8_ok sep = true -> Forall (fun s => utf8_ok s = true) ss ->
-  zlen (intercalate sep ss) < 2 ^ w ->
-  str_join_m w false (SStr sep) ss = Done (intercalate sep ss).
-Proof. exact str_join_strs_total. Qed.
+(** [encode_utf8] of a scalar value is well-formed, so char pieces / separators pass too *)
+Theorem C20_encode_utf8_valid : forall c, is_scalar c -> utf8_ok (encode_m c) = true.
+Proof. exact utf8_ok_encode. Qed.
+
+(** hence the macros never panic and return exactly std's string: [elem_ok] = a valid
+    [&str] or a scalar [char]; [sep_ok] likewise *)
+Theorem C20_concat_total : forall w arg,
+  Forall elem_ok (arg_elems arg) -> total_len (arg_bytes arg) < 2 ^ w ->
+  forall lit, (lit = true -> arg_elems arg = []) ->
+  str_concat_m w lit arg = Done (flat (arg_bytes arg)).
+Proof. exact str_concat_total. Qed.
+Theorem C20_join_total : forall w sep ss,
+  sep_ok sep -> Forall (fun s => utf8_ok s = true) ss ->
+  zlen (intercalate (sep_bytes sep) ss) < 2 ^ w ->
+  forall lit, (lit = true -> ss = []) ->
+  str_join_m w lit sep ss = Done (intercalate (sep_bytes sep) ss).
+Proof. exact str_join_total. Qed.
+Theorem C20_from_iter_total : forall w items,
+  Forall elem_ok items -> total_len (map elem_bytes items) < 2 ^ w ->
+  from_iter_m w items = Done (flat (map elem_bytes items)).
+Proof. exact from_iter_total. Qed.
 
 (** [slice_concat!] = [<[&[T]]>::concat] for every element type ... *)
 Theorem C20_slice_concat_eq : forall (A : Type) w (slices : list (list A)),
@@ -134,6 +147,11 @@ Theorem C20_concat_example :
   str_join_m 64 false (SChar 233) [[97]; []; [240; 159; 167; 160; 120]]
   = Done [97; 195; 169; 195; 169; 240; 159; 167; 160; 120].
 Proof. exact concat_example. Qed.
+Theorem C20_hypotheses_satisfiable :
+  let ss := [[97]; []; [240; 159; 167; 160; 120]] in
+  sep_ok (SChar 233) /\ Forall (fun s => utf8_ok s = true) ss /\
+  zlen (intercalate (sep_bytes (SChar 233)) ss) < 2 ^ 64.
+Proof. exact hyps_example. Qed.
 
 (* ------------------------------------------------------------------ CStr *)
 
@@ -212,11 +230,14 @@ Print Assumptions C20_collect_build.
 Print Assumptions C20_from_iter_eq.
 Print Assumptions C20_concat_utf8.
 Print Assumptions C20_join_utf8.
-Print Assumptions C20_concat_strs_total.
-Print Assumptions C20_join_strs_total.
+Print Assumptions C20_encode_utf8_valid.
+Print Assumptions C20_concat_total.
+Print Assumptions C20_join_total.
+Print Assumptions C20_from_iter_total.
 Print Assumptions C20_slice_concat_eq.
 Print Assumptions C20_concat_slices.
 Print Assumptions C20_concat_example.
+Print Assumptions C20_hypotheses_satisfiable.
 Print Assumptions C20_until_nul_iff.
 Print Assumptions C20_until_nul_result.
 Print Assumptions C20_first_nul_unique.
